@@ -342,10 +342,45 @@ def check_encapsulation(ctx, f, g):
                   sample={"setter": name.rsplit("::", 1)[-1], "guard": "%s %d" % want})
 
 
+def run_witnesses(ctx):
+    """S4: compile_fail doc-tests with compiling twins, built against /repo's working tree (never executed)"""
+    import os
+    import re
+    import shutil
+    import subprocess
+    from ..facts import VERIF, REPO, nightly_sysroot
+    ctx.rule("type-level-witnesses")
+    wdir = os.path.join(VERIF, "witnesses")
+    lock = os.path.join(REPO, "Cargo.lock")
+    if os.path.exists(lock):
+        try:
+            shutil.copyfile(lock, os.path.join(wdir, "Cargo.lock"))
+        except OSError:
+            pass
+    env = dict(os.environ, CARGO_NET_OFFLINE="true", CARGO_TARGET_DIR=os.path.join(VERIF, ".work", "wit-target"))
+    env.pop("RUSTC_WORKSPACE_WRAPPER", None)
+    env.pop("RUSTFLAGS", None)
+    r = subprocess.run(["cargo", "+nightly", "test", "--doc", "--offline"], cwd=wdir, env=env, stdout=subprocess.PIPE, stderr=subprocess.STDOUT, text=True)
+    res = {}
+    for m in re.finditer(r"test src/lib.rs - (\w+) \(line \d+\) - (compile fail|compile) \.\.\. (\w+)", r.stdout):
+        res.setdefault(m.group(1), {})[m.group(2)] = m.group(3)
+    names = ["NoStructLiteral", "NoClockWrite", "NoCheckersWrite", "NoInnerAccess", "NoWriterAccess"]
+    if not res:
+        ctx.fail("witnesses:build", "the witness crate did not build against the current tree: %s" % r.stdout[-600:])
+        return
+    for n in names:
+        got = res.get(n, {})
+        ctx.check(got.get("compile fail") == "ok" and got.get("compile") == "ok", "witness:%s" % n,
+                  "type-level witness %s no longer holds: the violating program %s, its twin %s (outside code can now forge or mutate a Board)"
+                  % (n, "is rejected" if got.get("compile fail") == "ok" else "COMPILES", "compiles" if got.get("compile") == "ok" else "fails"),
+                  sample={"witness": n, "violating program": "rejected with the expected error code", "twin": "compiles"})
+
+
 def run(ctx):
     ctx.explanation = __doc__
     f = ctx.facts("A")
     g = gatemod.Gate(ctx, f)
+    run_witnesses(ctx)
     check_encapsulation(ctx, f, g)
     ctx.rule("gate")
     g.check_gate(ctx, B + "::from_fen", "parser")
